@@ -133,6 +133,12 @@ theorem monotone_builtinCall (f : γ → Task → M Value) (b : Builtin) (ts : L
   unfold builtinCall
   mono_all hmono
 
+@[partial_fixpoint_monotone]
+theorem monotone_thunkBody (cfg : Cfg) (f : γ → Task → M Value) (p : Pending) (d : Nat)
+    (hmono : monotone f) : monotone (fun x => thunkBody cfg (f x) p d) := by
+  unfold thunkBody
+  mono_all hmono
+
 theorem monotone_step (cfg : Cfg) (f : γ → Task → M Value) (t : Task)
     (hmono : monotone f) : monotone (fun x => step cfg (f x) t) := by
   unfold step
